@@ -16,6 +16,7 @@ import (
 	"github.com/AdguardTeam/AdGuardDNS/internal/access"
 	"github.com/AdguardTeam/AdGuardDNS/internal/agd"
 	"github.com/AdguardTeam/AdGuardDNS/internal/agdcache"
+	"github.com/AdguardTeam/AdGuardDNS/internal/agdnet"
 	"github.com/AdguardTeam/AdGuardDNS/internal/agdtest"
 	"github.com/AdguardTeam/AdGuardDNS/internal/billstat"
 	"github.com/AdguardTeam/AdGuardDNS/internal/dnscheck"
@@ -302,7 +303,11 @@ func (w *World) Serve(ctx context.Context, r *Request) (out *Writer, err error) 
 
 	local := r.Local
 	if !local.IsValid() {
-		local = srv.BindData()[0].AddrPort
+		bd := srv.BindData()[0]
+		local = bd.AddrPort
+		if bd.PrefixAddr != nil {
+			local = netip.AddrPortFrom(bd.PrefixAddr.Prefix.Addr(), bd.PrefixAddr.Port)
+		}
 	}
 
 	out = &Writer{}
@@ -330,4 +335,19 @@ func (w *World) Serve(ctx context.Context, r *Request) (out *Writer, err error) 
 	err = h.ServeDNS(ctx, out, r.Msg)
 
 	return out, err
+}
+
+// NewServerIface returns a plain-DNS server description bound to an
+// interface prefix (dedicated addresses live inside the prefix).
+func NewServerIface(name string, prefix string, port uint16, linkedIP bool) (s *agd.Server) {
+	s = &agd.Server{
+		Name:            agd.ServerName(name),
+		Protocol:        agd.ProtoDNS,
+		LinkedIPEnabled: linkedIP,
+	}
+	s.SetBindData([]*agd.ServerBindData{{
+		PrefixAddr: &agdnet.PrefixNetAddr{Prefix: netip.MustParsePrefix(prefix), Net: "udp", Port: port},
+	}})
+
+	return s
 }
